@@ -62,7 +62,7 @@ def run(chk):
     # (a) machine vs LLVM on real kernels
     for cap in (["2"] if quick else ["1", "2", None]):
         cfg = {"seed": chk.seed * 41 + 1, "kinds": ["eval"], "fmt_cap": 3 if quick else 10, "n_inputs": 2 if quick else 4,
-               "max_problems": 60 if quick else 600, "per_shard": 10, "float_stream": True}
+               "max_problems": 100 if quick else 600, "per_shard": 10, "float_stream": True}
         index, failing = run_mgen(chk, f"mach_cap{cap or 'default'}", cfg, cap)
         for meta, verdict in failing:
             chk.violation(f"IR abstract machine and LLVM JIT disagree on a real kernel: {verdict}",
@@ -86,7 +86,7 @@ def run(chk):
 
     # (c) expression stream
     index, d = classify_rot(chk, "expr", "c06_expr.py",
-                            {"seed": chk.seed * 47 + 3, "prefix": "e", "n": 60 if quick else 600, "per_module": 30}, "the expression stream")
+                            {"seed": chk.seed * 47 + 3, "prefix": "e", "n": 90 if quick else 600, "per_module": 30}, "the expression stream")
     if index is not None:
         for e in index["compile_errors"]:
             chk.violation("emitted C does not compile", e)
